@@ -19,6 +19,8 @@ class C17(Prop):
     deadline = 60.0
 
     def cases(self, rng, tier):
+        for c in self.exact_threshold_cases(rng, tier):
+            yield c
         N = 110 if tier == "quick" else 2500
         for i in range(N):
             kind = rng.choice(["rand", "rand", "latin", "block", "noisy"])
@@ -35,6 +37,21 @@ class C17(Prop):
                 return out
             yield dict(entry="DoubleLambdaTSF.scf", family=kind + "_" + vk, rule="Double", P=P1, P2=P2, V=mk(P1), V2=mk(P2), k=rng.randint(1, n), k2=rng.randint(1, n),
                        zi=bool(i % 2), want_out=True, cpv=(n <= 6 and i % 2 == 0))
+
+    def exact_threshold_cases(self, rng, tier):
+        # sizes for which n ** (l / (lambda + 1)) is an exact number (4, 9, 16 with lambda = 1; 8 with lambda = 2): small integer
+        # values then sit EXACTLY on a threshold, with ties behind them
+        for i in range(1600 if tier == "quick" else 12000):
+            n, k = [(4, 1)] * 14 + [(9, 1), (8, 2)] if False else ([(4, 1)] * 14 + [(9, 1), (8, 2)])[i % 16] if i % 160 else (16, 1)
+            P1 = [rng.sample(range(1, n + 1), n) for _ in range(n)]; P2 = [rng.sample(range(1, n + 1), n) for _ in range(n)]
+            hi = rng.choice([3, 3, 4, 9])
+            def mk(P):
+                out = []
+                for row in P:
+                    vals = sorted([float(rng.randint(0, hi)) for _ in row], reverse=True); out.append([vals[r - 1] for r in row])
+                return out
+            yield dict(entry="DoubleLambdaTSF.scf", family="exact_threshold_%d" % n, rule="Double", P=P1, P2=P2, V=mk(P1), V2=mk(P2), k=k, k2=(k if i % 3 else rng.randint(1, n)),
+                       zi=bool(i % 2), want_out=True, cpv=False, nocoq=(n == 4 and i % 6 != 0))
 
     def run(self, case):
         import socialchoicekit.flow as F
@@ -69,16 +86,18 @@ class C17(Prop):
         for a, b in out: wife[a] = b
         if not I.is_stable(P1, P2, wife):
             return ("unstable", "returned matching has a blocking pair w.r.t. the ordinal profiles")
-        S1 = [[int(x) for x in r] for r in obs["vt"]]; S2 = [[int(x) for x in r] for r in obs["vt2"]]
+        # the simulated values BY DEFINITION (linear scan over the ranking, independent of the library's search), truncated as the rule does
+        R1, _ = E.ref_threshold_fill(P1, case["V"], case["k"], n, 0.0, True); R2, _ = E.ref_threshold_fill(P2, case["V2"], case["k2"], n, 0.0, True)
+        S1 = [[int(x) for x in r] for r in R1]; S2 = [[int(x) for x in r] for r in R2]
         val = I.value(S1, S2, wife)
         best = max(I.value(S1, S2, wf) for wf in I.all_stable(P1, P2))
         if val != best:
             return ("not_optimal", "total simulated value %d but a stable matching of simulated value %d exists" % (val, best))
-        return None
+        return None      # (whether get_simulated_cardinal_profiles itself is right is C14's question)
 
     def coq(self, case, obs):
         P1, P2 = case["P"], case["P2"]; n = len(P1)
-        if n > 9: return None
+        if n > 9 or case.get("nocoq"): return None
         z = lambda P: [[x - 1 for x in r] for r in P]
         S1 = [[int(x) for x in r] for r in obs["vt"]]; S2 = [[int(x) for x in r] for r in obs["vt2"]]
         if case.get("cpv"):
